@@ -16,7 +16,10 @@ def gen_text(r, malformed=False):
     def comment():
         return r.choice(["c ", "# ", "c", "#"]) + "".join(r.choice("abc p e 12 3.5") for _ in range(r.randint(0, 20)))
     for _ in range(r.randint(0, 2)): lines.append(comment())
-    lines.append("p %s %d %d" % (r.choice(["edge", "sp", "mcb"]), n, m))
+    # the announced edge count is only an announcement: the property counts one edge per 'e'/'a' line, so stale headers
+    # (fewer or more edges announced than present, zero) are valid texts too
+    m_announced = m if r.random() < .6 else r.choice([0, max(0, m - r.randint(1, 3)), m + r.randint(1, 4), 1])
+    lines.append("p %s %d %d" % (r.choice(["edge", "sp", "mcb"]), n, m_announced))
     bad_at = r.randrange(m) if (malformed and m) else None
     err = False
     for i in range(m):
